@@ -237,62 +237,78 @@ pub fn build_model(src: &mut Src) -> Grammar {
     g.normalize()
 }
 
+pub struct CaseInfo {
+    pub text: String,
+    pub classes: Vec<&'static str>,
+    pub nontrivial: bool,
+}
+
+/// one round-trip case decoded from choice bytes: Ok(info) or Err(violation record)
+pub fn case_info(bytes: &[u8]) -> Result<CaseInfo, (Failure, serde_json::Value)> {
+    let mut src = Src::new(bytes);
+    let model = build_model(&mut src);
+    let parens = src.chance(128);
+    let (text, stats) = printer::print_with(&model, &mut src, parens);
+    let fail = |f: Failure, text: &str| {
+        (f.clone(), json!({"property": "C12", "kind": "roundtrip", "text": text, "model": model, "message": f.msg, "expected": f.expected, "observed": f.observed}))
+    };
+    let parsed = match pg::Grammar::from_str(&text) {
+        Ok(p) => p,
+        Err(e) => {
+            return Err(fail(Failure::new(format!("a grammar text following the syntax reference is rejected: {:?}", e), "parses", format!("{:?}", e)), &text));
+        }
+    };
+    let lifted = match lift(&parsed) {
+        Ok(l) => l,
+        Err(e) => return Err(fail(Failure::new(format!("parsed grammar cannot be decoded: {e}"), "decodable", e.clone()), &text)),
+    };
+    let (want, got) = if parens { (strip(&model), strip(&lifted)) } else { (canon(&model), canon(&lifted)) };
+    if want != got {
+        return Err(fail(Failure::new("grammar text is read into a different structure than it denotes", first_diff(&want, &got), String::new()), &text));
+    }
+    // second relation: two layouts of one model generate byte-identical code
+    let mut classes: Vec<&'static str> = vec![];
+    if src.chance(40) {
+        let canon_text = printer::print_canonical(&model);
+        let settings = CodegenSettings::default();
+        let a = pg::Grammar::from_str(&canon_text).ok().and_then(|g| std::panic::catch_unwind(|| g.generate_code(&settings).ok().map(|t| t.to_string())).ok().flatten());
+        let b = std::panic::catch_unwind(|| parsed.generate_code(&settings).ok().map(|t| t.to_string())).ok().flatten();
+        if !parens && a != b {
+            return Err(fail(Failure::new("two layouts of the same grammar generate different code", "identical code", "different code"), &text));
+        }
+        classes.push("two_layout_codegen");
+    }
+    if stats.comments_in_expr > 0 {
+        classes.push("comment_in_expr");
+    }
+    if stats.nonraw_escapes > 0 {
+        classes.push("nonraw_escape");
+    }
+    if stats.extra_parens > 0 {
+        classes.push("extra_parens");
+    }
+    if stats.dquotes > 0 {
+        classes.push("double_quotes");
+    }
+    const KINDS: [&str; 7] = ["esc_raw", "esc_simple", "esc_x", "esc_u4", "esc_U8", "esc_brace_min", "esc_brace_padded"];
+    for (i, k) in stats.escape_kinds.iter().enumerate() {
+        if *k > 0 {
+            classes.push(KINDS[i]);
+        }
+    }
+    let nontrivial = stats.comments_in_expr > 0 || stats.nonraw_escapes > 0 || stats.extra_parens > 0;
+    Ok(CaseInfo { text, classes, nontrivial })
+}
+
+pub fn one_case(bytes: &[u8]) -> Result<(), serde_json::Value> {
+    case_info(bytes).map(|_| ()).map_err(|e| e.1)
+}
+
 pub fn run(seed: u64, cases: u32, out: &str) {
     let mut acc = Acc::new("C12");
     crate::common::run_bytes(seed, "C12", cases, 900, &mut acc, |bytes, acc| {
-        let mut src = Src::new(bytes);
-        let model = build_model(&mut src);
-        let parens = src.chance(128);
-        let (text, stats) = printer::print_with(&model, &mut src, parens);
-        let fail = |f: Failure, text: &str| {
-            (f.clone(), json!({"property": "C12", "kind": "roundtrip", "text": text, "model": model, "message": f.msg, "expected": f.expected, "observed": f.observed}))
-        };
-        let parsed = match pg::Grammar::from_str(&text) {
-            Ok(p) => p,
-            Err(e) => {
-                return Err(fail(Failure::new(format!("a grammar text following the syntax reference is rejected: {:?}", e), "parses", format!("{:?}", e)), &text));
-            }
-        };
-        let lifted = match lift(&parsed) {
-            Ok(l) => l,
-            Err(e) => return Err(fail(Failure::new(format!("parsed grammar cannot be decoded: {e}"), "decodable", e.clone()), &text)),
-        };
-        let (want, got) = if parens { (strip(&model), strip(&lifted)) } else { (canon(&model), canon(&lifted)) };
-        if want != got {
-            return Err(fail(Failure::new("grammar text is read into a different structure than it denotes", first_diff(&want, &got), String::new()), &text));
-        }
-        // second relation: two layouts of one model generate byte-identical code
-        let mut classes: Vec<&str> = vec![];
-        if src.chance(40) {
-            let canon_text = printer::print_canonical(&model);
-            let settings = CodegenSettings::default();
-            let a = pg::Grammar::from_str(&canon_text).ok().and_then(|g| std::panic::catch_unwind(|| g.generate_code(&settings).ok().map(|t| t.to_string())).ok().flatten());
-            let b = std::panic::catch_unwind(|| parsed.generate_code(&settings).ok().map(|t| t.to_string())).ok().flatten();
-            if !parens && a != b {
-                return Err(fail(Failure::new("two layouts of the same grammar generate different code", "identical code", "different code"), &text));
-            }
-            classes.push("two_layout_codegen");
-        }
-        if stats.comments_in_expr > 0 {
-            classes.push("comment_in_expr");
-        }
-        if stats.nonraw_escapes > 0 {
-            classes.push("nonraw_escape");
-        }
-        if stats.extra_parens > 0 {
-            classes.push("extra_parens");
-        }
-        if stats.dquotes > 0 {
-            classes.push("double_quotes");
-        }
-        const KINDS: [&str; 7] = ["esc_raw", "esc_simple", "esc_x", "esc_u4", "esc_U8", "esc_brace_min", "esc_brace_padded"];
-        for (i, k) in stats.escape_kinds.iter().enumerate() {
-            if *k > 0 {
-                classes.push(KINDS[i]);
-            }
-        }
-        let nontrivial = stats.comments_in_expr > 0 || stats.nonraw_escapes > 0 || stats.extra_parens > 0;
-        acc.ok(&text, nontrivial, &classes, || json!({"text": text}));
+        let info = case_info(bytes)?;
+        acc.ok(&info.text, info.nontrivial, &info.classes, || json!({"text": info.text}));
         Ok(())
     });
     acc.write(out);
